@@ -303,3 +303,28 @@ func (r *Run) Flush() *Partial {
 	}
 	return p
 }
+
+// Journal records the case that is about to run in $VERIF_WORK/journal-<shard>.json so that a fatal
+// crash of the process (Go stack overflow is not recoverable) can still be attributed by the driver.
+func (r *Run) Journal(c any, why string) {
+	dir := os.Getenv("VERIF_WORK")
+	if dir == "" {
+		return
+	}
+	b, err := json.Marshal(c)
+	if err != nil {
+		return
+	}
+	f := &Failure{Property: r.Prop, Message: "the process died with a fatal error while running this case (" + why + ")", Sig: "fatal-crash", Case: b}
+	data, _ := json.MarshalIndent(f, "", " ")
+	_ = os.WriteFile(filepath.Join(dir, "journal-"+r.Shard+".json"), data, 0o644)
+}
+
+// JournalDone clears the journal after the risky call returned.
+func (r *Run) JournalDone() {
+	dir := os.Getenv("VERIF_WORK")
+	if dir == "" {
+		return
+	}
+	_ = os.Remove(filepath.Join(dir, "journal-"+r.Shard+".json"))
+}
